@@ -149,7 +149,7 @@ class NewGen:
             if depth == 0 and self.rng.random() < opts.get("generic_embed", 0.0):
                 # the embedded struct is GENERIC and embedded as an instantiation (`Base[int]`): one of its fields has the parameter type
                 decl["tparams"] = [(["K"], "comparable")]
-                e["targs"] = [self.rng.choice(["int", "string"])]
+                e["targs"] = [self.rng.choice(["int", "string", "time.Duration"])]   # also a QUALIFIED type argument
                 fs = [m for m in decl["members"] if m["k"] == "f"]
                 for m in fs:
                     m.pop("group", None)      # a multi-name declaration shares ONE type
@@ -433,7 +433,9 @@ def render_file(pkg, structs, extra_imports=(), case_id="x"):
     imports = set(extra_imports)
     if has_sub:
         imports.add('"verifcases/c_%s/sub"' % case_id)
-    if any(uses_type(s, "time.") for s in decls):
+    def targs_use(d, needle):
+        return any(m["k"] == "e" and (any(needle in a for a in (m.get("targs") or [])) or targs_use(m["decl"], needle)) for m in d["members"])
+    if any(uses_type(s, "time.") or targs_use(s, "time.") for s in decls):
         imports.add('"time"')
     if any(uses_type(s, "url.") for s in decls):
         imports.add('"net/url"')
